@@ -53,6 +53,12 @@ CLAIMED = {
  "C01": ("typestate of helper symbols (dominance, paired effects, def-use of the one suffix set), must-pass-through on the CFG of the completion branch, field-effect comparison of sibling stack-element methods, def-use on tokens / leaves / root",
          "Decides the machinery the derivation property depends on, for every grammar and input: helper symbols are reserved names, registered before use, last in their production and removed only in pairs with their productions; on every completion path the suffix splice is evaluated before the node is handed over or returned; abandoning an alternative resets exactly what matching changed; leaves are the non-skipped tokens in order, built only on a name match with the cursor advancing by one; the returned root is the start symbol's node.",
          "The arithmetic of common-prefix factorisation, of suffix production construction beyond its shape, and of the partial undo is NOT decided; nor which alternative is chosen. A pass means the mechanisms are wired on every path, not that every tree is a derivation.", "3/C01"),
+ "C06": ("finite abstract interpretation of the branch comparator over item kinds and order relations; who-may-list / def-use rules on commit enumeration and the provenance of the match flag",
+         "Decides ONLY the third sentence of the property: the branch comparator is a total order with ints below strings (exhaustive over {int,str}^2 x {<,=,>}), extended lexicographically with length tie-break and exposed through Comparable's six operators; branches are sorted by it with master/main forced last by a leading string prefix; the report lists commits only through the is_explicit filter, the 'not merged' set is filtered likewise, and is_explicit is the search predicate `search_text in commit.message` applied to that same commit.",
+         "The attribution sentences (each matching commit exactly once under the earliest containing build per branch, 'not merged' exactness) are outcomes of graph searches with per-repository caches over arbitrary histories: NOT decided by this check. Assumes remote names sort below the 'zzzz..' prefix.", "3/C06"),
+ "C07": ("guard / dominance / def-use rules on the dependency DFS of ReposCollection and on make_reports_data",
+         "Decides ONLY the second sentence: every candidate sequence feeding sorted_repos is sorted (supply order irrelevant), a repository is placed only when none of its present sub-components is unprocessed and is marked done in the same step, the only exception is ValueError raised when an unprocessed sub-component is on the current DFS path, and reports are assembled in that order from already built component graphs.",
+         "The first sentence (each report-related component build recorded at exactly the first parent build that ships it; bumps reported) depends on interleavings of pins, tags and branch points over arbitrary histories: NOT decided.", "3/C07"),
 }
 
 NOT_APPLICABLE = {
